@@ -84,6 +84,75 @@ theorem walkChain_long_iff_cyclic (E : Env) (S : KVs) (n : String) (fuel : Nat)
     walkChain E fuel S n = .long ↔ Cyclic E (S, n) :=
   ⟨walkChain_long_cyclic E S n fuel hfuel, walkChain_cyclic E fuel S n⟩
 
+/-- **the three outcomes of the link walk**, for a service of the main mapping and fuel beyond the number of tracker
+keys: `leaf` ⇔ the service has a (finite) chain to a base without `extends`; `long` ⇔ its chain runs into a cycle;
+`stuck` ⇔ neither — some link cannot be followed (missing base, missing / unreadable file, malformed reference, a
+service that is not a mapping).  A chain, a cycle and a broken link exclude one another. -/
+theorem walkChain_trichotomy (E : Env) (S : KVs) (n : String) (fuel : Nat)
+    (hfuel : (keyUniverse E S).length + 1 ≤ fuel) :
+    (walkChain E fuel S n = .leaf ↔ ∃ links leaf, Chain E E.mainFile S n links leaf) ∧
+    (walkChain E fuel S n = .long ↔ Cyclic E (S, n)) ∧
+    (walkChain E fuel S n = .stuck ↔ (¬ ∃ links leaf, Chain E E.mainFile S n links leaf) ∧ ¬ Cyclic E (S, n)) := by
+  have hlong := walkChain_long_iff_cyclic E S n fuel hfuel
+  have hleaf : walkChain E fuel S n = .leaf ↔ ∃ links leaf, Chain E E.mainFile S n links leaf := by
+    constructor
+    · intro h
+      obtain ⟨links, leaf, hc, _⟩ := walkChain_leaf_chain E fuel E.mainFile S n h
+      exact ⟨links, leaf, hc⟩
+    · intro ⟨links, leaf, hc⟩
+      cases hw : walkChain E fuel S n with
+      | leaf => rfl
+      | long => exact absurd (hlong.mp hw) hc.not_cyclic
+      | stuck =>
+        exact absurd ⟨links, leaf, hc⟩ (walkChain_stuck_no_chain E fuel E.mainFile S n hw)
+  refine ⟨hleaf, hlong, ?_⟩
+  constructor
+  · intro h
+    constructor
+    · intro hc
+      have := hleaf.mpr hc
+      rw [h] at this; cases this
+    · intro hc
+      have := hlong.mpr hc
+      rw [h] at this; cases this
+  · intro ⟨h1, h2⟩
+    cases hw : walkChain E fuel S n with
+    | stuck => rfl
+    | leaf => exact absurd (hleaf.mp hw) h1
+    | long => exact absurd (hlong.mp hw) h2
+
+/-- **the outcome of `ApplyExtends`, read off the link walk** (every visit order; `hfold`: the merges along every chain
+succeed — otherwise the outcome is the merge's error, C04's concern):
+1. every service's walk ends at a leaf ⇒ accepted;
+2. no walk is stuck and one is `long` ⇒ exactly `err circular`;
+3. some walk is stuck (missing base, missing file, malformed reference, …) ⇒ not accepted. -/
+theorem applyExtends_outcome_by_walk {E : Env} (hE : FuelFree E) {order : List String} {dict S : KVs}
+    (hS : lookup "services" dict = some (.map S)) (hnn : NoNull S) (hfs : NoNullFS E)
+    (hmain : fileServices E.fs E.mainFile = none) (hord : Visits order S)
+    (fuel : Nat) (hfuel : (keyUniverse E S).length + 1 ≤ fuel)
+    (hfold : ∀ n links leaf, Chain E E.mainFile S n links leaf → ∃ m, foldChain E leaf.2.2 links = .ok m) :
+    ((∀ n, lookup n S ≠ none → walkChain E fuel S n = .leaf) → ∃ out, applyExtendsOrd E order dict = .ok out) ∧
+    ((∀ n, lookup n S ≠ none → walkChain E fuel S n ≠ .stuck) →
+      (∃ n, lookup n S ≠ none ∧ walkChain E fuel S n = .long) → applyExtendsOrd E order dict = .err "circular") ∧
+    ((∃ n, lookup n S ≠ none ∧ walkChain E fuel S n = .stuck) → ∀ out, applyExtendsOrd E order dict ≠ .ok out) := by
+  have hflat_of_leaf : ∀ n, walkChain E fuel S n = .leaf → ∃ v, Flat E S n v := by
+    intro n hw
+    obtain ⟨links, leaf, hc⟩ := ((walkChain_trichotomy E S n fuel hfuel).1).mp hw
+    obtain ⟨m, hm⟩ := hfold n links leaf hc
+    exact ⟨_, hc.flat m hm⟩
+  refine ⟨fun hall => acyclic_ok hS hord hmain (fun n hn => hflat_of_leaf n (hall n hn)), ?_, ?_⟩
+  · intro hns ⟨n, hn, hl⟩
+    refine cycle_is_circular hE hS hmain hord (fun k hk => ?_)
+      ⟨n, hn, ((walkChain_trichotomy E S n fuel hfuel).2.1).mp hl⟩
+    cases hw : walkChain E fuel S k with
+    | leaf => exact Or.inl (hflat_of_leaf k hw)
+    | long => exact Or.inr (((walkChain_trichotomy E S k fuel hfuel).2.1).mp hw)
+    | stuck => exact absurd hw (hns k hk)
+  · intro ⟨n, hn, hst⟩ out
+    refine not_flat_not_ok hS hnn hfs hord hn (fun v hf => ?_) out
+    obtain ⟨links, leaf, _, hc, _, _⟩ := hf.chain E.mainFile
+    exact (((walkChain_trichotomy E S n fuel hfuel).2.2).mp hst).1 ⟨links, leaf, hc⟩
+
 /-- the oracle's reading of a real `circular`: if the walk of no service is `long`, `ApplyExtends` does not report
 `circular` (contrapositive of `circular_sound` through the decision procedure) -/
 theorem no_long_walk_no_circular {E : Env} (hE : NoCircularEnv E) {order : List String} {dict S : KVs}
